@@ -69,11 +69,14 @@ def shrink(case):
 
 MANIFEST = {
     "text": "Model: the I/O loop of nsqd/diskqueue.go as a step function over an explicit file system, incl. the read handle's bufio buffer. "
-            "Theorems (Props/C09.v): FIFO refinement through the byte level — for every history of puts, gets, sync ticks and clean restarts that "
-            "stays within the first segment, the model's outputs equal the abstract queue's (gets in order, each once; a restart loses and "
-            "duplicates nothing and reports the right depth), by an invariant over file contents, frames, the buffered handle and the read-ahead; "
-            "correctness of the buffered reader for any buffer state; frame and metadata round trips. "
+            "Theorems (Props/C09.v): FIFO refinement through the byte level for EVERY history of puts, gets, sync ticks and clean restarts, any "
+            "maxBytesPerFile (also smaller than one message), any syncEvery, messages below 2^31 bytes (C09_fifo_all_segments, C09_fifo_from_any_layout): "
+            "the model's outputs equal the abstract queue's (gets in order, each once; roll-over, over-sized messages and restarts lose and duplicate "
+            "nothing; depth at rest = undelivered messages), by an invariant laying the undelivered messages out over the segment files "
+            "(closed files end with the record that crossed the limit, reader and writer agree on that record, consumed files removed, read-ahead kept); "
+            "the first-segment refinement, correctness of the buffered reader for any buffer state, frame and metadata round trips. "
             "Tie: real DiskQueue histories compared op by op (delivered message, depth at rest) and the final directory byte for byte.",
-    "note": "partial: histories with segment roll-over are covered by the differential run against the model, not by the refinement theorem. "
+    "note": "The theorem is about clean histories from an empty directory (crashes are C08); read errors cannot occur under the invariant, so the "
+            "handleReadError / skipToNextRWFile paths are exercised by C08's crash images only. "
             "Trusted: Coq kernel+VM; OS file semantics of completed calls; os/bufio/fmt as oracles.",
 }
